@@ -291,7 +291,9 @@ def build_field(H, W, spec, a, b, inm):
         (ra, ca), (rb, cb) = pin["a"], pin["b"]
         fa, fb = float(f[ra % H, ca % W]), float(f[rb % H, cb % W])
         level = (2 * pin["n"] + 1) * math.pi
-        return f + (level - ((1 - pin["t"]) * fa + pin["t"] * fb))
+        off = level - ((1 - pin["t"]) * fa + pin["t"] * fb)
+        # only the piston modulo 2*pi matters for where the contours run: keep it in [-pi, pi]
+        return f + (off - TWO_PI * round(off / TWO_PI))
     return f + spec["offset"]
 
 
